@@ -501,12 +501,46 @@ theorem herm_iff_exec (A : Mat) {d : ℕ} (hn : A.n = d) (hm : A.m = d) (hwf : A
     exact toM_injective (adjoint_wf _) hwf (by simpa using hm) (by simpa using hn) hn hm h
   · intro h; rw [h]
 
+/-- `beq` is equality of the structures -/
+theorem beq_iff (A B : Mat) : A.beq B = true ↔ A = B := by
+  obtain ⟨n, m, d⟩ := A
+  obtain ⟨n', m', d'⟩ := B
+  simp only [beq, Bool.and_eq_true, beq_iff_eq, Mat.mk.injEq, and_assoc]
+
 /-- `beq` (the test `GeneralGate.is_hermitian` is modelled with) implies equality of all entries -/
 theorem get_eq_of_beq {A B : Mat} (h : A.beq B = true) : A.n = B.n ∧ A.m = B.m ∧ ∀ i j, A.get i j = B.get i j := by
   simp only [beq, Bool.and_eq_true, beq_iff_eq] at h
   obtain ⟨⟨h1, h2⟩, h3⟩ := h
   refine ⟨h1, h2, fun i j => ?_⟩
   simp only [get, h2, h3]
+
+end Mat
+end Qib
+
+namespace Qib
+namespace Mat
+
+/-- unitarity read in the matrix's own shape -/
+theorem IsUnitaryN.toMatrix {A : Mat} {d : ℕ} (h : A.IsUnitaryN d) :
+    A.toMatrix * A.toMatrixᴴ = 1 ∧ A.toMatrixᴴ * A.toMatrix = 1 := by
+  obtain ⟨n, m, data⟩ := A
+  obtain ⟨hn, hm, _, hmul⟩ := h
+  simp only at hn hm
+  subst hn hm
+  exact ⟨hmul, mul_eq_one_comm.mp hmul⟩
+
+theorem IsUnitaryN.isUnitary {A : Mat} {d : ℕ} (h : A.IsUnitaryN d) : A.IsUnitary := by
+  unfold IsUnitary; rw [h.n_eq]; exact h
+
+/-- rows are orthonormal -/
+theorem IsUnitaryN.rows {A : Mat} {d : ℕ} (h : A.IsUnitaryN d) : ∀ i j, i < d → j < d →
+    ∑ k ∈ Finset.range d, (A.get i k).toC * star (A.get j k).toC = if i = j then 1 else 0 :=
+  (mul_adj_iff_rows A d).mp h.mul_adj
+
+/-- columns are orthonormal -/
+theorem IsUnitaryN.cols {A : Mat} {d : ℕ} (h : A.IsUnitaryN d) : ∀ i j, i < d → j < d →
+    ∑ k ∈ Finset.range d, star (A.get k i).toC * (A.get k j).toC = if i = j then 1 else 0 :=
+  (adj_mul_iff_cols A d).mp h.adj_mul
 
 end Mat
 end Qib
